@@ -35,8 +35,8 @@ FLAVOURS = {
     "asan": ["-DCMAKE_BUILD_TYPE=Debug",
              "-DCMAKE_INTERPROCEDURAL_OPTIMIZATION=OFF",
              "-DCMAKE_C_FLAGS=-O1 -g -fno-omit-frame-pointer "
-             "-fsanitize=address,undefined -fno-sanitize-recover=all "
-             "-DOVNI_VERIF -Wno-error"],
+             "-fsanitize=address,undefined -fno-sanitize=signed-integer-overflow "
+             "-fno-sanitize-recover=all -DOVNI_VERIF -Wno-error"],
     "tsan": ["-DCMAKE_BUILD_TYPE=Debug",
              "-DCMAKE_INTERPROCEDURAL_OPTIMIZATION=OFF",
              "-DCMAKE_C_FLAGS=-O1 -g -fno-omit-frame-pointer -fsanitize=thread "
@@ -382,7 +382,7 @@ def first_repo_frame(stderr):
     """Top-most frame of a sanitizer stack that lies in /repo sources."""
     for m in re.finditer(r"#\d+ 0x[0-9a-f]+ in (\S+) (\S+)", stderr):
         fn, loc = m.group(1), m.group(2)
-        if REPO + "/" in loc or "/src/" in loc:
+        if loc.startswith(REPO + "/"):
             f = os.path.basename(loc.split(":")[0])
             return "%s@%s" % (fn, f)
     return "unknown-frame"
